@@ -164,7 +164,8 @@ _arm()
 
 def reset_shared_state():
     """the engine replays the harness once per path: start every path from the state the class has after definition
-    (the only attribute bisturi is known to change later is the delimiter remembered by regex-delimited Data, F2)"""
+    (before fix 1bfe930 unpack changed the delimiter remembered by regex-delimited Data; a change that reintroduces such
+    shared state must not make the exploration non-deterministic)"""
     for _, f, _, _ in RX.get_fields():
         if isinstance(f, Data):
             object.__setattr__(f, "delimiter_to_be_included", b"")
@@ -271,7 +272,7 @@ def _mk(ix):
         if before != after:
             kind = "pack-output" if before[0] == after[0] else "field-values"
             if kind == "pack-output" and bcls is RX and ocls is RX and "unpack" in hist:
-                # the delimiter matched by the LAST parse of any RX packet is re-emitted by every RX packet (finding F2)
+                # the delimiter matched by the LAST parse of any RX packet re-emitted by another one (was finding F2, fixed 1bfe930)
                 return "FAIL sig=C13|regex-delimiter-remembered-on-shared-field|RX"
             return "FAIL sig=C13|bystander-%%s-changed|bystander=%%s(%%s)|other=%%s|history=%%s before=%%r after=%%r" %% (
                 kind, bcls_name, "parsed" if parsed else "default", ocls_name, "-".join(hist), before, after)
